@@ -151,7 +151,7 @@ def trace_engine(rep, unames, reals, *, ntr, nsteps, acts_for_prop, seed_offset=
         for j, rn in enumerate(reals):
             for c in range(4):
                 jobs.append((un, rn, runner.seed() * 1000 + seed_offset + 17 * i + 5 * j + c, max(1, ntr // 4), nsteps, {"gens": gens, "maxframe": maxframe}))
-    recs = runner.pool_map(trace.record_job, jobs, chunksize=1)
+    recs = runner.pool_map(trace.record_job, jobs, chunksize=1, smoke_cap=False)
     by_u = {}
     for job, r in zip(jobs, recs):
         if isinstance(r, dict):
@@ -552,6 +552,7 @@ def check_C10(tier, rng, rep):
                           acts=acts, gens=GEN_SMALL, maxframe=2, regs=3, maxobj=6, constraint="SimDomain")
     for un, r in sims:
         rep.add_tlc("ShapeSys-sim/" + un, r)
+    jobs = runner.smoke(jobs)
     res = runner.pool_map(replay.run_case, jobs)
     # within a history every deviation from the model is a dependence on earlier calls: an object
     # changed by a call on another one (C08), a stale measure after a transformation (C04/C09)
@@ -560,7 +561,6 @@ def check_C10(tier, rng, rep):
     # the same behaviours in fresh interpreters: other hash seeds, cold and pre-warmed
     # module-level memo tables; observation logs must be identical
     sub = runner.sample(list(range(len(jobs))), 10 if quick else 120, rng)
-    base = {res[i]["case"] + "/" + jobs[i][1]: res[i] for i in sub}
     chunks = [(hs, warm) for hs, warm in ((1, False), (2, True))]
     import concurrent.futures as cf
     with cf.ThreadPoolExecutor(len(chunks)) as ex:
